@@ -132,6 +132,12 @@ func init() {
 		if err != nil {
 			return "", err
 		}
+		// unpackSVCBResource rejects a compressed TargetName (since the repack-ResTooLong-svcb repair)
+		if svcb, err := c36Conds(p, "unpackSVCBResource"); err == nil {
+			if _, err := c36Find(svcb, `^(msg\[i\]&0xC0 == 0xC0)$`); err == nil {
+				b.WriteString("/-- unpackSVCBResource rejects a compressed TargetName -/\ndef svcbRejectsCompressedTarget : Bool := true\n")
+			}
+		}
 		b.WriteString("/-- `ptr++; ptr > N` in Name.unpack -/\ndef ptrLimit : Nat := " + ptrLimit + "\n")
 		b.WriteString("/-- `i-begin >= N` in Name.pack -/\ndef segLimit : Nat := " + segV + "\n")
 		b.WriteString("/-- `newPtr <= int(^uint16(0)>>2)` in Name.pack -/\ndef maxPtr : Nat := 16383\n")
